@@ -56,6 +56,10 @@ def run(tier):
               "check_filename", slices=[dict(plen=plen)], pct=300 if tier == "quick" else 1500, ppt=60,
               bounds={"prefix": f"symbolic str, len <= {plen}, alphabet a - . e", "suffixes": h.SUFFIXES})
     b.execute()
+    from vlib.checks import c20_programs
+    r.encoded.append(common.src_ref("src/lian/basics/basic_analysis.py", "(entry generation per unit, executed concretely through main.py run)"))
+    r.encoded.append(common.src_ref("src/lian/core/global_semantics.py", "P3 start set = loader.get_entry_points() (through main.py run)"))
+    c20_programs.run_leg(r, tier)
     r.add_sample({"unit": ["python", 7, "src/a.py"], "rule": {"lang": "python", "unit_name": "a", "method_list": ["main"]},
                   "methods": [["main", None], ["g", "['static']"]]})
     return r
@@ -63,6 +67,9 @@ def run(tier):
 
 def replay(rec):
     cex = rec["cex"]
+    if rec["obligation"].startswith("program leg"):
+        from vlib.checks import c20_programs
+        return c20_programs.replay(rec)
     func = "check_filename" if "file-name" in rec["obligation"] else "check_selection"
     out = xrun.replay_native(M, func, cex.get("slice", {}), cex["cex"])
     return bool(out.get("violated")), out
